@@ -67,6 +67,10 @@ func genInventory(r *vk.RNG, maxN int) []CSpec {
 				cs.Labels[k] = vk.Pick(r, c02Vals)
 			}
 		}
+		if cs.Name != "" && r.Chance(1, 5) {
+			// legacy links: the daemon lists /parent/alias entries after the container's own name
+			cs.Aliases = []string{vk.Pick(r, c02Names[:5]) + "/" + vk.Pick(r, []string{"db", "web", "backend", "w"}), "/proxy" + vk.Pick(r, c02Names[:5])}
+		}
 		nrec := r.Range(0, 3)
 		for j := 0; j < nrec; j++ {
 			cs.Frames = append(cs.Frames, Frame{Type: 1, TS: int64(1700000100+j)*1e9 + int64(i), Body: fmt.Sprintf("c%d#%d", i, j)})
